@@ -947,18 +947,23 @@ pub open spec fn ctl_first(c: Seq<PendingControl>, a: ControlAction) -> int
         let r = ctl_first(c.subrange(1, c.len() as int), a); if r < 0 { -1 } else { r + 1 } }
 }
 
-/// representation invariant of Outbound (W1, W2, W4)
-pub open spec fn wf(o: Outbound) -> bool {
-    &&& packed_ok(o.buf@.len() as int, o.used as int, o.retained@)
-    &&& o.buf@.len() <= usize::MAX
-    &&& o.retained@.len() <= MAX_RETAINED
-    &&& o.pending_control@.len() <= MAX_PENDING_CONTROL
-    &&& o.pending_release@.len() <= MAX_PENDING_RELEASE
-    &&& forall|i: int| 0 <= i < o.retained@.len() ==> (#[trigger] o.retained@[i]).len >= 1 && state_ok(o.retained@[i].state, o.retained@[i].len as int)
-    &&& forall|i: int| 0 <= i < o.pending_control@.len() ==> state_ok((#[trigger] o.pending_control@[i]).state, ctl_len(o.pending_control@[i].action))
-    &&& forall|i: int| 0 <= i < o.pending_release@.len() ==> state_ok((#[trigger] o.pending_release@[i]).state, REL_LEN)
+/// representation invariant of Outbound (W1, W2, W4, W8) over the views of its fields; opaque so that
+/// callers treat it as an atom (equal field views => same atom)
+#[verifier::opaque]
+pub open spec fn wfs(buf: Seq<u8>, used: usize, c: Seq<PendingControl>, r: Seq<RetainedPacket>, l: Seq<PendingRelease>) -> bool {
+    &&& packed_ok(buf.len() as int, used as int, r)
+    &&& buf.len() <= usize::MAX
+    &&& r.len() <= MAX_RETAINED
+    &&& c.len() <= MAX_PENDING_CONTROL
+    &&& l.len() <= MAX_PENDING_RELEASE
+    &&& forall|i: int| 0 <= i < r.len() ==> (#[trigger] r[i]).len >= 1 && state_ok(r[i].state, r[i].len as int)
+    &&& forall|i: int| 0 <= i < c.len() ==> state_ok((#[trigger] c[i]).state, ctl_len(c[i].action))
+    &&& forall|i: int| 0 <= i < l.len() ==> state_ok((#[trigger] l[i]).state, REL_LEN)
     // W8: Sent control entries are dropped at once by flush_control
-    &&& forall|i: int| 0 <= i < o.pending_control@.len() ==> (#[trigger] o.pending_control@[i]).state != SendState::Sent
+    &&& forall|i: int| 0 <= i < c.len() ==> (#[trigger] c[i]).state != SendState::Sent
+}
+pub open spec fn wf(o: Outbound) -> bool {
+    wfs(o.buf@, o.used, o.pending_control@, o.retained@, o.pending_release@)
 }
 
 pub open spec fn has_ret(r: Seq<RetainedPacket>, id: u16) -> bool {
@@ -1272,7 +1277,7 @@ fn new(buf: &'a mut [u8]) -> (r: Self)
         r.used == 0 && r.pending_control@.len() == 0 && r.retained@.len() == 0 && r.pending_release@.len() == 0,
         bv(r) == old(buf)@,
         wf(r),
-{
+{ proof { reveal(wfs); } 
         proof { assert(buf@.len() == buf.len()); }
 
 
@@ -1290,7 +1295,7 @@ fn clear(&mut self)
         final(self).used == 0 && final(self).pending_control@.len() == 0 && final(self).retained@.len() == 0 && final(self).pending_release@.len() == 0,
         bv(*final(self)) == bv(*old(self)),
         wf(*final(self)),
-{
+{ proof { reveal(wfs); } 
         proof { lemma_cap_bound(*self); }
 
 
@@ -1303,7 +1308,7 @@ fn clear(&mut self)
 fn has_pending_state(&self) -> (r: bool)
     ensures
         r == !(self.pending_control@.len() == 0 && self.retained@.len() == 0 && self.pending_release@.len() == 0),
-{
+{ proof { reveal(wfs); } 
         !self.pending_control.is_empty()
             || !self.retained.is_empty()
             || !self.pending_release.is_empty()
@@ -1312,51 +1317,51 @@ fn has_pending_state(&self) -> (r: bool)
 fn is_quiescent(&self) -> (r: bool)
     ensures
         r == (self.pending_control@.len() == 0 && self.retained@.len() == 0 && self.pending_release@.len() == 0),
-{
+{ proof { reveal(wfs); } 
         !self.has_pending_state()
     }
 
 fn retained_full(&self) -> (r: bool)
     ensures
         r == (self.retained@.len() == MAX_RETAINED),
-{
+{ proof { reveal(wfs); } 
         self.retained.is_full()
     }
 
 fn used(&self) -> (r: usize)
     ensures
         r == self.used,
-{
+{ proof { reveal(wfs); } 
         self.used
     }
 fn capacity(&self) -> (r: usize)
     ensures
         r == bv(*self).len(),
-{
+{ proof { reveal(wfs); } 
         self.buf.len()
     }
 fn retained_len(&self) -> (r: usize)
     ensures
         r == self.retained@.len(),
-{
+{ proof { reveal(wfs); } 
         self.retained.len()
     }
 fn pending_control_len(&self) -> (r: usize)
     ensures
         r == self.pending_control@.len(),
-{
+{ proof { reveal(wfs); } 
         self.pending_control.len()
     }
 fn pending_release_len(&self) -> (r: usize)
     ensures
         r == self.pending_release@.len(),
-{
+{ proof { reveal(wfs); } 
         self.pending_release.len()
     }
 fn max_inflight(&self) -> (r: u16)
     ensures
         r == 8,
-{
+{ proof { reveal(wfs); } 
         MAX_RETAINED.min(MAX_PENDING_RELEASE) as u16
     }
 
@@ -1365,7 +1370,7 @@ fn used_after_compact(&self) -> (r: usize)
         wf(*self),
     ensures
         r == total_len(*self),
-{
+{ proof { reveal(wfs); } 
         { let mut __acc1: usize = 0; let mut __i1: usize = 0;
         while __i1 < self.retained.len() 
             invariant
@@ -1373,7 +1378,7 @@ fn used_after_compact(&self) -> (r: usize)
                 __acc1 == prefix_sum(self.retained@, __i1 as int),
                 wf(*self),
             decreases self.retained@.len() - __i1
-{
+{ proof { reveal(wfs); } 
             let entry = self.retained.at(__i1);
             proof { lemma_prefix_sum_bound(bv(*self).len() as int, self.used as int, self.retained@, __i1 as int + 1); }
 
@@ -1388,7 +1393,7 @@ fn scratch_len(&self) -> (r: usize)
         wf(*self),
     ensures
         r == bv(*self).len() - total_len(*self),
-{
+{ proof { reveal(wfs); } 
         proof { lemma_prefix_sum_bound(bv(*self).len() as int, self.used as int, self.retained@, self.retained@.len() as int); }
 
         self.buf.len().saturating_sub(self.used_after_compact())
@@ -1399,7 +1404,7 @@ fn can_retain(&self) -> (r: bool)
         wf(*self),
     ensures
         r == (self.retained@.len() < MAX_RETAINED && bv(*self).len() - total_len(*self) >= MAX_FIXED_HEADER_SIZE),
-{
+{ proof { reveal(wfs); } 
         self.retained.len() < self.retained.capacity()
             && self.scratch_len() >= MAX_FIXED_HEADER_SIZE
     }
@@ -1412,7 +1417,7 @@ fn compact(&mut self)
         rets(bv(*final(self)), final(self).retained@) =~= rets(bv(*old(self)), old(self).retained@),
         compacted(*final(self)),
         wf(*final(self)),
-{
+{ proof { reveal(wfs); } 
         let previous_used = self.used;
 
         let mut cursor = 0;
@@ -1440,7 +1445,7 @@ fn compact(&mut self)
                     && bytes_of(bv(*self), a) =~= bytes_of(bv(*old(self)), b)
                 },
             decreases self.retained@.len() - __i1
-{
+{ proof { reveal(wfs); } 
             proof {
                 assert(self.retained@[__i1 as int] == old(self).retained@[__i1 as int]);
                 assert(old(self).retained@[__i1 as int].offset + old(self).retained@[__i1 as int].len <= old(self).used);
@@ -1486,7 +1491,7 @@ fn scratch_space(&mut self) -> (r: &mut [u8])
         final(self).retained@.len() == old(self).retained@.len() && same_queues(*final(self), *old(self)) && bv(*final(self)).len() == bv(*old(self)).len(),
         same_entries(bv(*final(self)), final(self).retained@, bv(*old(self)), old(self).retained@),
         wf(*final(self)) && compacted(*final(self)),
-{
+{ proof { reveal(wfs); } 
         self.compact();
         proof {
             let n = self.retained@.len() as int;
@@ -1508,7 +1513,7 @@ fn queue_control(&mut self, action: ControlAction) -> (r: Result<(), ProtocolErr
         final(self).retained@ == old(self).retained@ && final(self).pending_release@ == old(self).pending_release@
             && final(self).used == old(self).used && bv(*final(self)) == bv(*old(self)),
         wf(*final(self)),
-{
+{ proof { reveal(wfs); } 
         (match self.pending_control
             .push(PendingControl {
                 action,
@@ -1519,7 +1524,7 @@ fn queue_control(&mut self, action: ControlAction) -> (r: Result<(), ProtocolErr
 fn has_pending_pingreq(&self) -> (r: bool)
     ensures
         r == (exists|i: int| 0 <= i < self.pending_control@.len() && (#[trigger] self.pending_control@[i]).action == ControlAction::PingReq && self.pending_control@[i].state != SendState::Sent),
-{
+{ proof { reveal(wfs); } 
         self.pending_control.any_of(|entry| -> (__r: bool) ensures __r == (matches!(entry.action, ControlAction::PingReq) && entry.state != SendState::Sent) { matches!(entry.action, ControlAction::PingReq) && entry.state != SendState::Sent })
     }
 
@@ -1532,7 +1537,7 @@ fn ack_packet(&mut self, packet_id: u16) -> (r: bool)
         r ==> rets(bv(*final(self)), final(self).retained@) =~= rets(bv(*old(self)), old(self).retained@).remove(first_ret(old(self).retained@, packet_id)),
         same_queues(*final(self), *old(self)) && bv(*final(self)).len() == bv(*old(self)).len(),
         wf(*final(self)) && (r ==> compacted(*final(self))),
-{
+{ proof { reveal(wfs); } 
         let Some(position) = self
             .retained.position_of(|entry| -> (__r: bool) ensures __r == (entry.packet_id == packet_id) { entry.packet_id == packet_id })
         else {
@@ -1551,7 +1556,7 @@ fn ack_packet(&mut self, packet_id: u16) -> (r: bool)
 fn has_retained(&self, packet_id: u16) -> (r: bool)
     ensures
         r == has_ret(self.retained@, packet_id),
-{
+{ proof { reveal(wfs); } 
         self.retained.any_of(|entry| -> (__r: bool) ensures __r == (entry.packet_id == packet_id) { entry.packet_id == packet_id })
     }
 
@@ -1570,7 +1575,7 @@ fn queue_release(
         final(self).retained@ == old(self).retained@ && final(self).pending_control@ == old(self).pending_control@
             && final(self).used == old(self).used && bv(*final(self)) == bv(*old(self)),
         wf(*final(self)),
-{
+{ proof { reveal(wfs); } 
         (match self.pending_release
             .push(PendingRelease {
                 packet_id,
@@ -1589,7 +1594,7 @@ fn ack_release(&mut self, packet_id: u16) -> (r: bool)
         final(self).retained@ == old(self).retained@ && final(self).pending_control@ == old(self).pending_control@
             && final(self).used == old(self).used && bv(*final(self)) == bv(*old(self)),
         wf(*final(self)),
-{
+{ proof { reveal(wfs); } 
         let Some(position) = self
             .pending_release.position_of(|pending| -> (__r: bool) ensures __r == (pending.packet_id == packet_id) { pending.packet_id == packet_id })
         else {
@@ -1604,7 +1609,7 @@ fn ack_release(&mut self, packet_id: u16) -> (r: bool)
 fn has_pending_release(&self, packet_id: u16) -> (r: bool)
     ensures
         r == has_rel(self.pending_release@, packet_id),
-{
+{ proof { reveal(wfs); } 
         self.pending_release.any_of(|pending| -> (__r: bool) ensures __r == (pending.packet_id == packet_id) { pending.packet_id == packet_id })
     }
 
@@ -1617,7 +1622,7 @@ fn mark_retained_dup(&mut self)
         forall|k: int| 0 <= k < bv(*old(self)).len() && !is_first_byte(old(self).retained@, k) ==> #[trigger] bv(*final(self))[k] == bv(*old(self))[k],
         forall|k: int| 0 <= k < bv(*old(self)).len() && is_first_byte(old(self).retained@, k) ==> #[trigger] bv(*final(self))[k] == bv(*old(self))[k] | 8u8,
         wf(*final(self)),
-{
+{ proof { reveal(wfs); } 
         let mut __i1: usize = 0;
         while __i1 < self.retained.len() 
             invariant
@@ -1629,7 +1634,7 @@ fn mark_retained_dup(&mut self)
                 forall|k: int| 0 <= k < bv(*self).len() ==> #[trigger] bv(*self)[k] ==
                     (if is_first_byte(old(self).retained@.subrange(0, __i1 as int), k) { bv(*old(self))[k] | 8u8 } else { bv(*old(self))[k] }),
             decreases self.retained@.len() - __i1
-{
+{ proof { reveal(wfs); } 
             let entry = self.retained.at(__i1);
             proof {
                 let r = old(self).retained@;
@@ -1659,7 +1664,7 @@ fn retained_packet(&self, offset: usize, len: usize) -> (r: &[u8])
         offset + len <= bv(*self).len() && bv(*self).len() <= usize::MAX,
     ensures
         r@ == bv(*self).subrange(offset as int, offset + len),
-{
+{ proof { reveal(wfs); } 
         &self.buf[offset..offset + len]
     }
 
@@ -1680,7 +1685,7 @@ fn retain_packet(
             && final(self).retained@ == old(self).retained@ && final(self).used == old(self).used,
         same_queues(*final(self), *old(self)) && bv(*final(self)) == bv(*old(self)),
         wf(*final(self)),
-{
+{ proof { reveal(wfs); } 
         (match (match self.retained
             .push(RetainedPacket {
                 packet_id,
@@ -1709,7 +1714,7 @@ fn set_control_written(
         final(self).retained@ == old(self).retained@ && final(self).pending_release@ == old(self).pending_release@
             && final(self).used == old(self).used && bv(*final(self)) == bv(*old(self)),
         wf(*final(self)),
-{
+{ proof { reveal(wfs); } 
         let __p1 = self.pending_control.position_of(|entry| -> (__r: bool) ensures __r == (entry.action == action) { entry.action == action });
         if let Some(entry) = (match __p1 { Some(__q) => Some(self.pending_control.at_mut(__q)), None => None })
         {
@@ -1732,7 +1737,7 @@ fn flush_control(&mut self, action: ControlAction) -> (found: bool)
         final(self).retained@ == old(self).retained@ && final(self).pending_release@ == old(self).pending_release@
             && final(self).used == old(self).used && bv(*final(self)) == bv(*old(self)),
         wf(*final(self)),
-{
+{ proof { reveal(wfs); } 
         let __p1 = self.pending_control.position_of(|entry| -> (__r: bool) ensures __r == (entry.action == action) { entry.action == action });
         let found = if let Some(entry) = (match __p1 { Some(__q) => Some(self.pending_control.at_mut(__q)), None => None })
         {
@@ -1783,7 +1788,7 @@ fn set_retained_written(
         !r ==> final(self).retained@ == old(self).retained@,
         same_queues(*final(self), *old(self)) && final(self).used == old(self).used && bv(*final(self)) == bv(*old(self)),
         wf(*final(self)),
-{
+{ proof { reveal(wfs); } 
         let __p1 = self.retained.position_of(|entry| -> (__r: bool) ensures __r == (entry.packet_id == packet_id) { entry.packet_id == packet_id });
         if let Some(entry) = (match __p1 { Some(__q) => Some(self.retained.at_mut(__q)), None => None })
         {
@@ -1806,7 +1811,7 @@ fn flush_retained(&mut self, packet_id: u16) -> (r: bool)
         !r ==> final(self).retained@ == old(self).retained@,
         same_queues(*final(self), *old(self)) && final(self).used == old(self).used && bv(*final(self)) == bv(*old(self)),
         wf(*final(self)),
-{
+{ proof { reveal(wfs); } 
         let __p1 = self.retained.position_of(|entry| -> (__r: bool) ensures __r == (entry.packet_id == packet_id) { entry.packet_id == packet_id });
         if let Some(entry) = (match __p1 { Some(__q) => Some(self.retained.at_mut(__q)), None => None })
         {
@@ -1836,7 +1841,7 @@ fn set_release_written(
         final(self).retained@ == old(self).retained@ && final(self).pending_control@ == old(self).pending_control@
             && final(self).used == old(self).used && bv(*final(self)) == bv(*old(self)),
         wf(*final(self)),
-{
+{ proof { reveal(wfs); } 
         let __p1 = self.pending_release.position_of(|entry| -> (__r: bool) ensures __r == (entry.packet_id == packet_id) { entry.packet_id == packet_id });
         if let Some(entry) = (match __p1 { Some(__q) => Some(self.pending_release.at_mut(__q)), None => None })
         {
@@ -1860,7 +1865,7 @@ fn flush_release(&mut self, packet_id: u16) -> (r: bool)
         final(self).retained@ == old(self).retained@ && final(self).pending_control@ == old(self).pending_control@
             && final(self).used == old(self).used && bv(*final(self)) == bv(*old(self)),
         wf(*final(self)),
-{
+{ proof { reveal(wfs); } 
         let __p1 = self.pending_release.position_of(|entry| -> (__r: bool) ensures __r == (entry.packet_id == packet_id) { entry.packet_id == packet_id });
         if let Some(entry) = (match __p1 { Some(__q) => Some(self.pending_release.at_mut(__q)), None => None })
         {
@@ -1876,7 +1881,7 @@ fn flush_release(&mut self, packet_id: u16) -> (r: bool)
 fn next_step(&self) -> (r: Option<OutboundStep>)
     ensures
         r == next_step_spec(*self),
-{
+{ proof { reveal(wfs); } 
         let __arr4 = [true, false]; let mut __i4: usize = 0;
         while __i4 < 2 
             invariant
@@ -1885,7 +1890,7 @@ fn next_step(&self) -> (r: Option<OutboundStep>)
                 __i4 >= 1 ==> step_for(*self, true) is None,
                 __i4 >= 2 ==> step_for(*self, false) is None,
             decreases 2 - __i4
-{
+{ proof { reveal(wfs); } 
             let in_progress = __arr4[__i4];
             let mut __i1: usize = 0;
         while __i1 < self.pending_control.len() 
@@ -1894,7 +1899,7 @@ fn next_step(&self) -> (r: Option<OutboundStep>)
                     __i4 >= 1 ==> step_for(*self, true) is None,
                     forall|j: int| 0 <= j < __i1 ==> !prio((#[trigger] self.pending_control@[j]).state, in_progress),
                 decreases self.pending_control@.len() - __i1
-{
+{ proof { reveal(wfs); } 
             let entry = self.pending_control.at(__i1);
                 if entry.state.matches_priority(in_progress) {
                     proof { lemma_ctl_idx(self.pending_control@, in_progress, __i1 as int); }
@@ -1914,7 +1919,7 @@ fn next_step(&self) -> (r: Option<OutboundStep>)
                     forall|j: int| 0 <= j < self.pending_control@.len() ==> !prio((#[trigger] self.pending_control@[j]).state, in_progress),
                     forall|j: int| 0 <= j < __i2 ==> !prio((#[trigger] self.pending_release@[j]).state, in_progress),
                 decreases self.pending_release@.len() - __i2
-{
+{ proof { reveal(wfs); } 
             let entry = self.pending_release.at(__i2);
                 if entry.state.matches_priority(in_progress) {
                     proof { lemma_ctl_idx_none(self.pending_control@, in_progress); lemma_rel_idx(self.pending_release@, in_progress, __i2 as int); }
@@ -1936,7 +1941,7 @@ fn next_step(&self) -> (r: Option<OutboundStep>)
                     forall|j: int| 0 <= j < self.pending_release@.len() ==> !prio((#[trigger] self.pending_release@[j]).state, in_progress),
                     forall|j: int| 0 <= j < __i3 ==> !prio((#[trigger] self.retained@[j]).state, in_progress),
                 decreases self.retained@.len() - __i3
-{
+{ proof { reveal(wfs); } 
             let entry = self.retained.at(__i3);
                 if entry.state.matches_priority(in_progress) {
                     proof { lemma_ctl_idx_none(self.pending_control@, in_progress); lemma_rel_idx_none(self.pending_release@, in_progress); lemma_ret_idx(self.retained@, in_progress, __i3 as int); }
@@ -1974,7 +1979,7 @@ fn arm_replay(&mut self)
         forall|k: int| 0 <= k < bv(*old(self)).len() && !is_first_byte(old(self).retained@, k) ==> #[trigger] bv(*final(self))[k] == bv(*old(self))[k],
         forall|k: int| 0 <= k < bv(*old(self)).len() && is_first_byte(old(self).retained@, k) ==> #[trigger] bv(*final(self))[k] == bv(*old(self))[k] | 8u8,
         wf(*final(self)),
-{
+{ proof { reveal(wfs); } 
         if !self.has_pending_state() {
             return;
         }
@@ -1992,7 +1997,7 @@ fn arm_replay(&mut self)
                 forall|k: int| 0 <= k < bv(*old(self)).len() && !is_first_byte(old(self).retained@, k) ==> #[trigger] bv(*self)[k] == bv(*old(self))[k],
                 forall|k: int| 0 <= k < bv(*old(self)).len() && is_first_byte(old(self).retained@, k) ==> #[trigger] bv(*self)[k] == bv(*old(self))[k] | 8u8,
             decreases self.pending_control@.len() - __i1
-{
+{ proof { reveal(wfs); } 
             let entry = self.pending_control.at_mut(__i1);
             entry.state = SendState::Write { written: 0 };
             __i1 += 1;
@@ -2011,7 +2016,7 @@ fn arm_replay(&mut self)
                 forall|k: int| 0 <= k < bv(*old(self)).len() && !is_first_byte(old(self).retained@, k) ==> #[trigger] bv(*self)[k] == bv(*old(self))[k],
                 forall|k: int| 0 <= k < bv(*old(self)).len() && is_first_byte(old(self).retained@, k) ==> #[trigger] bv(*self)[k] == bv(*old(self))[k] | 8u8,
             decreases self.retained@.len() - __i2
-{
+{ proof { reveal(wfs); } 
             let entry = self.retained.at_mut(__i2);
             entry.state = SendState::Write { written: 0 };
             __i2 += 1;
@@ -2032,7 +2037,7 @@ fn arm_replay(&mut self)
                 forall|k: int| 0 <= k < bv(*old(self)).len() && !is_first_byte(old(self).retained@, k) ==> #[trigger] bv(*self)[k] == bv(*old(self))[k],
                 forall|k: int| 0 <= k < bv(*old(self)).len() && is_first_byte(old(self).retained@, k) ==> #[trigger] bv(*self)[k] == bv(*old(self))[k] | 8u8,
             decreases self.pending_release@.len() - __i3
-{
+{ proof { reveal(wfs); } 
             let entry = self.pending_release.at_mut(__i3);
             entry.state = SendState::Write { written: 0 };
             __i3 += 1;
@@ -2062,7 +2067,7 @@ where
         r matches Ok((off, len)) ==> final(self).used <= off && off + len <= bv(*final(self)).len() && len >= 2
             && bv(*final(self)).subrange(off as int, off + len) == packet.enc() && framed(packet.enc()),
         r matches Err(e) ==> e is Encode,
-{
+{ proof { reveal(wfs); } 
         self.compact();
         proof {
             lemma_rets_same_entries(bv(*self), self.retained@, bv(*old(self)), old(self).retained@);
@@ -2086,7 +2091,7 @@ fn encode_publish<P: ToPayload, E>(
         wf(*final(self)) && compacted(*final(self)),
         r matches Ok((off, len)) ==> final(self).used <= off && off + len <= bv(*final(self)).len() && len >= 2
             && bv(*final(self)).subrange(off as int, off + len) == enc_publish(*header, payload) && framed(enc_publish(*header, payload)),
-{
+{ proof { reveal(wfs); } 
         self.compact();
         proof {
             lemma_rets_same_entries(bv(*self), self.retained@, bv(*old(self)), old(self).retained@);
@@ -2329,9 +2334,17 @@ pub struct SessionData<'a> {
 /// the id handed out next: wraps from 65535 to 1, never 0
 pub open spec fn next_id(id: u16) -> u16 { if id == 65535 { 1 } else { (id + 1) as u16 } }
 
+/// W6 (C07): identifiers of all in-flight entries (retained, then pending release) are pairwise distinct
+pub open spec fn ids_seq(r: Seq<RetainedPacket>, l: Seq<PendingRelease>) -> Seq<u16> {
+    Seq::new(r.len(), |i: int| r[i].packet_id) + Seq::new(l.len(), |i: int| l[i].packet_id)
+}
+#[verifier::opaque]
+pub open spec fn w6s(r: Seq<RetainedPacket>, l: Seq<PendingRelease>) -> bool { ids_seq(r, l).no_duplicates() }
+pub open spec fn w6(o: Outbound) -> bool { w6s(o.retained@, o.pending_release@) }
+
 pub open spec fn sd_inv(d: SessionData) -> bool {
     wf(d.outbound) && d.packet_id.v != 0 && d.pending_server_packet_ids@.len() <= MAX_INBOUND_QOS2
-        && d.pending_server_packet_ids@.no_duplicates()
+        && d.pending_server_packet_ids@.no_duplicates() && w6(d.outbound)
 }
 
 /// the k-th identifier probed when starting from `start` (1..=65535, cyclic)
@@ -2346,9 +2359,7 @@ pub proof fn lemma_cyc_step(start: u16, k: nat)
     assert((a + 1) % 65535 == (if a % 65535 == 65534 { 0 } else { a % 65535 + 1 })) by (nonlinear_arith) requires a >= 0;
 }
 /// identifiers of all in-flight entries, as one sequence (retained then release)
-pub open spec fn ids_of(o: Outbound) -> Seq<u16> {
-    Seq::new(o.retained@.len(), |i: int| o.retained@[i].packet_id) + Seq::new(o.pending_release@.len(), |i: int| o.pending_release@[i].packet_id)
-}
+pub open spec fn ids_of(o: Outbound) -> Seq<u16> { ids_seq(o.retained@, o.pending_release@) }
 /// pigeonhole on sequences: distinct values that all occur in `ids` are at most |ids| many
 pub proof fn lemma_pigeon(xs: Seq<u16>, ids: Seq<u16>)
     requires xs.no_duplicates(), forall|i: int| 0 <= i < xs.len() ==> ids.contains(#[trigger] xs[i]),
@@ -2394,6 +2405,7 @@ pub proof fn lemma_probe_bound(o: Outbound, start: u16, k: nat)
     requires start != 0, k <= 17, wf(o), forall|j: nat| j < k ==> in_use(o, #[trigger] cyc(start, j)),
     ensures k <= 16
 {
+    reveal(wfs);
     let ids = ids_of(o);
     let xs = Seq::new(k, |j: int| cyc(start, j as nat));
     assert forall|i: int| 0 <= i < xs.len() implies ids.contains(#[trigger] xs[i]) by {
@@ -2424,7 +2436,7 @@ fn new(outbound: &'a mut [u8]) -> (r: Self)
         r.packet_id.v == 1 && r.generation == 0 && !r.session_present && r.pending_server_packet_ids@.len() == 0
             && r.outbound.retained@.len() == 0 && r.outbound.pending_control@.len() == 0 && r.outbound.pending_release@.len() == 0
             && r.outbound.used == 0 && bv(r.outbound) == old(outbound)@ && sd_inv(r),
-{
+{ proof { reveal(w6s); } 
         Self {
             packet_id: NonZeroU16::new(1).unwrap(),
             generation: 0,
@@ -2454,7 +2466,7 @@ fn reset(&mut self)
             && final(self).outbound.pending_release@.len() == 0 && final(self).outbound.used == 0
             && bv(final(self).outbound) == bv(old(self).outbound),
         sd_inv(*final(self)),
-{
+{ proof { reveal(w6s); } 
         self.session_present = false;
         self.generation = self.generation.wrapping_add(1);
         self.packet_id = NonZeroU16::new(1).unwrap();
@@ -2611,12 +2623,123 @@ pub proof fn lemma_swap_remove_set(s: Seq<u16>, i: int)
     }
 }
 
+/// ids of the retained list only
+pub open spec fn ret_ids(r: Seq<RetainedPacket>) -> Seq<u16> { Seq::new(r.len(), |i: int| r[i].packet_id) }
+pub open spec fn rel_ids(r: Seq<PendingRelease>) -> Seq<u16> { Seq::new(r.len(), |i: int| r[i].packet_id) }
+
+/// W6 survives an acknowledgement: removing one retained entry keeps all ids distinct and frees that id
+pub proof fn lemma_w6_acked(o1: Outbound, o0: Outbound, id: u16)
+    requires w6(o0), acked(o1, o0, id), has_ret(o0.retained@, id),
+    ensures w6(o1), !in_use(o1, id)
+{
+    reveal(w6s);
+    let k = first_ret(o0.retained@, id);
+    lemma_first_ret_bounds(o0.retained@, id);
+    let r0 = o0.retained@; let r1 = o1.retained@;
+    let n0 = r0.len() as int;
+    assert(rets(bv(o1), r1).len() == rets(bv(o0), r0).remove(k).len());
+    assert(r1.len() == n0 - 1);
+    assert forall|i: int| 0 <= i < r1.len() implies (#[trigger] r1[i]).packet_id == r0[if i < k { i } else { i + 1 }].packet_id by {
+        assert(rets(bv(o1), r1)[i] == rets(bv(o0), r0).remove(k)[i]);
+    }
+    let a0 = ids_of(o0); let a1 = ids_of(o1);
+    assert forall|i: int, j: int| 0 <= i < a1.len() && 0 <= j < a1.len() && i != j implies a1[i] != a1[j] by {
+        let ii = if i < k { i } else { i + 1 };
+        let jj = if j < k { j } else { j + 1 };
+        assert(a1[i] == a0[ii] && a1[j] == a0[jj]);
+    }
+    if in_use(o1, id) {
+        if has_ret(r1, id) {
+            let i = choose|i: int| 0 <= i < r1.len() && (#[trigger] r1[i]).packet_id == id;
+            let ii = if i < k { i } else { i + 1 };
+            assert(a0[ii] == id && a0[k] == id && ii != k);
+        } else {
+            let i = choose|i: int| 0 <= i < o1.pending_release@.len() && (#[trigger] o1.pending_release@[i]).packet_id == id;
+            assert(a0[n0 + i] == id && a0[k] == id);
+        }
+    }
+}
+pub proof fn lemma_first_ret_bounds(r: Seq<RetainedPacket>, id: u16)
+    ensures 0 <= first_ret(r, id) <= r.len(),
+        has_ret(r, id) ==> first_ret(r, id) < r.len() && r[first_ret(r, id)].packet_id == id,
+    decreases r.len()
+{
+    if r.len() > 0 && r[0].packet_id != id {
+        let t = r.subrange(1, r.len() as int);
+        lemma_first_ret_bounds(t, id);
+        if has_ret(r, id) {
+            let i = choose|i: int| 0 <= i < r.len() && (#[trigger] r[i]).packet_id == id;
+            assert(t[i - 1] == r[i]);
+            assert(has_ret(t, id));
+            assert(t[first_ret(t, id)] == r[first_ret(t, id) + 1]);
+        }
+    }
+}
+pub proof fn lemma_first_rel_bounds(r: Seq<PendingRelease>, id: u16)
+    ensures 0 <= first_rel(r, id) <= r.len(),
+        has_rel(r, id) ==> first_rel(r, id) < r.len() && r[first_rel(r, id)].packet_id == id,
+    decreases r.len()
+{
+    if r.len() > 0 && r[0].packet_id != id {
+        let t = r.subrange(1, r.len() as int);
+        lemma_first_rel_bounds(t, id);
+        if has_rel(r, id) {
+            let i = choose|i: int| 0 <= i < r.len() && (#[trigger] r[i]).packet_id == id;
+            assert(t[i - 1] == r[i]);
+            assert(has_rel(t, id));
+            assert(t[first_rel(t, id)] == r[first_rel(t, id) + 1]);
+        }
+    }
+}
+/// W6 survives queueing a PUBREL for an id that is not in use
+pub proof fn lemma_w6s_push(r: Seq<RetainedPacket>, l: Seq<PendingRelease>, e: PendingRelease)
+    requires w6s(r, l), !has_ret(r, e.packet_id), !has_rel(l, e.packet_id),
+    ensures w6s(r, l.push(e))
+{
+    reveal(w6s);
+    let a1 = ids_seq(r, l); let a2 = ids_seq(r, l.push(e));
+    let n = a1.len() as int;
+    assert(a2.len() == n + 1);
+    assert forall|i: int, j: int| 0 <= i < a2.len() && 0 <= j < a2.len() && i != j implies a2[i] != a2[j] by {
+        if i < n && j < n { assert(a2[i] == a1[i] && a2[j] == a1[j]); }
+        else {
+            let m = if i < n { i } else { j };
+            assert(a2[n] == e.packet_id);
+            assert(a2[m] == a1[m]);
+            if m < r.len() { assert(r[m].packet_id == a1[m]); }
+            else { assert(l[m - r.len()].packet_id == a1[m]); }
+        }
+    }
+}
+/// W6 survives removing a pending PUBREL
+pub proof fn lemma_w6_remove_release(o1: Outbound, o0: Outbound, k: int)
+    requires w6(o0), 0 <= k < o0.pending_release@.len(), o1.pending_release@ =~= o0.pending_release@.remove(k), o1.retained@ == o0.retained@,
+    ensures w6(o1)
+{
+    reveal(w6s);
+    let a0 = ids_of(o0); let a1 = ids_of(o1);
+    let n = o0.retained@.len() as int;
+    assert forall|i: int, j: int| 0 <= i < a1.len() && 0 <= j < a1.len() && i != j implies a1[i] != a1[j] by {
+        let ii = if i < n + k { i } else { i + 1 };
+        let jj = if j < n + k { j } else { j + 1 };
+        assert(a1[i] == a0[ii] && a1[j] == a0[jj]);
+    }
+}
+pub proof fn lemma_w6_same_lists(o1: Outbound, o0: Outbound)
+    requires w6(o0), o1.retained@ == o0.retained@, o1.pending_release@ == o0.pending_release@,
+    ensures w6(o1)
+{
+    reveal(w6s);
+    assert(ids_of(o1) =~= ids_of(o0));
+}
+
 pub open spec fn ctl_pushed(o1: Outbound, o0: Outbound, a: ControlAction) -> bool {
     &&& o1.pending_control@ == o0.pending_control@.push(PendingControl { action: a, state: SendState::Write { written: 0 } })
     &&& o1.retained@ == o0.retained@ && o1.pending_release@ == o0.pending_release@ && o1.used == o0.used && bv(o1) == bv(o0)
 }
 
 impl<'a> SessionData<'a> {
+#[verifier::rlimit(200)]
 fn handle_packet(
         &mut self,
         runtime: &mut RuntimeState,
@@ -2730,6 +2853,7 @@ fn handle_packet(
 
                     return Ok(false);
                 }
+                proof { lemma_w6_acked(self.outbound, old(self).outbound, ack.packet_id); }
 
                 let __s1 = ack.codes; let mut __i1: usize = 0;
         while __i1 < __s1.len() 
@@ -2760,6 +2884,7 @@ fn handle_packet(
 
                     return Ok(false);
                 }
+                proof { lemma_w6_acked(self.outbound, old(self).outbound, ack.packet_id); }
 
                 let __s2 = ack.codes; let mut __i2: usize = 0;
         while __i2 < __s2.len() 
@@ -2794,6 +2919,8 @@ fn handle_packet(
 
                     return Ok(false);
                 }
+                proof { lemma_w6_acked(self.outbound, old(self).outbound, ack.packet_id); }
+
                 runtime.send_quota = runtime
                     .send_quota
                     .saturating_add(1)
@@ -2804,6 +2931,8 @@ fn handle_packet(
             ReceivedPacket::PubRec(rec) => {
                 let queue_release = match self.outbound.ack_packet(rec.packet_id) {
                     true => {
+                        proof { lemma_w6_acked(self.outbound, old(self).outbound, rec.packet_id); }
+
 
                         if rec.reason.code().failed() {
                             runtime.send_quota = runtime
@@ -2832,6 +2961,11 @@ fn handle_packet(
                     ) { Ok(__v) => __v, Err(__e) => return Err(From::from(__e)) });
                     (match self.outbound
                         .queue_release(rec.packet_id, ReasonCode::Success) { Ok(__v) => __v, Err(__e) => return Err(From::from(__e)) });
+                    proof {
+                        lemma_w6s_push(self.outbound.retained@, old(self).outbound.pending_release@,
+                            PendingRelease { packet_id: rec.packet_id, reason: ReasonCode::Success, state: SendState::Write { written: 0 } });
+                    }
+
 
                 }
             }
@@ -2840,6 +2974,11 @@ fn handle_packet(
 
                     return Ok(false);
                 }
+                proof {
+                    lemma_first_rel_bounds(old(self).outbound.pending_release@, comp.packet_id);
+                    lemma_w6_remove_release(self.outbound, old(self).outbound, first_rel(old(self).outbound.pending_release@, comp.packet_id));
+                }
+
                 runtime.send_quota = runtime
                     .send_quota
                     .saturating_add(1)
@@ -3211,6 +3350,200 @@ fn received_packet(&mut self) -> (r: Result<ReceivedPacket<'_>, ProtocolError>)
         }),
 {
         (match self.take_packet() { Ok((_, packet)) => Ok(packet), Err(__e) => Err(__e) })
+    }
+}
+
+} // verus!
+
+// ======================================================================================
+// 50_session: Session / Connection types and the synchronous queries of session/mod.rs
+// ======================================================================================
+verus! {
+
+// ---- heapless::String<N> ---------------------------------------------------------------
+#[verifier::external_body]
+pub struct String<const N: usize> { s: std::string::String }
+impl<const N: usize> String<N> {
+    pub uninterp spec fn text(&self) -> Seq<char>;
+    #[verifier::external_body] pub fn as_str(&self) -> (r: &str) ensures r@ == self.text() { unimplemented!() }
+}
+impl<const N: usize> Clone for String<N> {
+    #[verifier::external_body] fn clone(&self) -> (r: Self) ensures r.text() == self.text() { unimplemented!() }
+}
+pub uninterp spec fn str_fits(s: Seq<char>, n: usize) -> bool;
+impl<'a, const N: usize> TryFrom<&'a str> for String<N> {
+    type Error = ();
+    #[verifier::external_body]
+    fn try_from(s: &'a str) -> (r: Result<Self, ()>) { unimplemented!() }
+}
+impl<'a, const N: usize> vstd::std_specs::convert::TryFromSpecImpl<&'a str> for String<N> {
+    open spec fn obeys_try_from_spec() -> bool { false }
+    open spec fn try_from_spec(s: &'a str) -> Result<Self, ()> { arbitrary() }
+}
+
+pub const TOPIC_CAPACITY: usize = 128;
+pub type TopicString = String<TOPIC_CAPACITY>;
+pub struct Will<'a> {
+    pub topic: TopicString,
+    pub data: &'a [u8],
+    pub qos: QoS,
+    pub retained: Retain,
+    pub properties: &'a [Property<'a>],
+}
+#[derive(Copy, Clone)]
+pub struct Auth<'a> {
+    pub user_name: &'a str,
+    pub password: &'a [u8],
+}
+impl<'a> Clone for Will<'a> {
+    #[verifier::external_body]
+    fn clone(&self) -> (r: Self)
+        ensures r.topic.text() == self.topic.text() && r.data == self.data && r.qos == self.qos && r.retained == self.retained && r.properties == self.properties
+    { unimplemented!() }
+}
+
+#[derive(Copy, Clone, PartialEq, Eq, Structural)]
+pub enum OpKind {
+    PublishAtLeastOnce,
+    PublishExactlyOnce,
+    Subscribe,
+    Unsubscribe,
+}
+#[derive(Copy, Clone, PartialEq, Eq, Structural)]
+pub struct Op {
+    pub kind: OpKind,
+    pub packet_id: u16,
+    pub generation: u32,
+}
+#[derive(Copy, Clone, PartialEq, Eq, Structural)]
+pub enum OpStatus {
+    Pending,
+    Complete,
+    Invalidated,
+}
+#[derive(Copy, Clone, PartialEq, Eq, Structural)]
+pub enum ConnectEvent {
+    Connected,
+    Reconnected,
+}
+pub struct Session<'buf> {
+    pub client_id: String<64>,
+    pub packet_reader: PacketReader<'buf>,
+    pub data: SessionData<'buf>,
+    pub runtime: RuntimeState,
+    pub will: Option<Will<'buf>>,
+    pub auth: Option<Auth<'buf>>,
+    pub session_expiry_interval: u32,
+    pub downgrade_qos: bool,
+}
+pub struct Connection<'a, 'buf> {
+    pub session: &'a mut Session<'buf>,
+    pub io: VIo,
+    pub event: ConnectEvent,
+    pub live: bool,
+}
+
+impl Op {
+fn new(kind: OpKind, packet_id: u16, generation: u32) -> (r: Self)
+    ensures
+        r == (Op { kind, packet_id, generation }),
+{
+        Self {
+            kind,
+            packet_id,
+            generation,
+        }
+    }
+}
+
+/// representation invariant of a Session between operations
+pub open spec fn sess_inv(s: Session) -> bool {
+    sd_inv(s.data) && reader_inv(s.packet_reader)
+}
+
+/// C18: what a handle reports, as a function of the session state
+pub open spec fn status_spec(s: Session, op: Op) -> OpStatus {
+    if op.generation != s.data.generation { OpStatus::Invalidated }
+    else if (match op.kind {
+        OpKind::PublishExactlyOnce => has_ret(s.data.outbound.retained@, op.packet_id) || has_rel(s.data.outbound.pending_release@, op.packet_id),
+        _ => has_ret(s.data.outbound.retained@, op.packet_id),
+    }) { OpStatus::Pending } else { OpStatus::Complete }
+}
+
+impl<'buf> Session<'buf> {
+fn max_rx_packet_size(&self) -> (r: usize)
+    ensures
+        r == rbuf(self.packet_reader).len(),
+{
+        self.packet_reader.capacity()
+    }
+fn max_tx_packet_size(&self) -> (r: usize)
+    ensures
+        r == bv(self.data.outbound).len(),
+{
+        self.data.outbound.capacity()
+    }
+fn can_publish(&self, qos: QoS) -> (r: bool)
+    requires
+        sess_inv(*self),
+    ensures
+        qos == QoS::AtMostOnce ==> r == (bv(self.data.outbound).len() - total_len(self.data.outbound) >= MAX_FIXED_HEADER_SIZE),
+        qos != QoS::AtMostOnce ==> r == (self.runtime.send_quota != 0 && self.data.outbound.retained@.len() < MAX_RETAINED
+            && bv(self.data.outbound).len() - total_len(self.data.outbound) >= MAX_FIXED_HEADER_SIZE),
+{
+        if qos == QoS::AtMostOnce {
+            self.data.outbound.scratch_len() >= MAX_FIXED_HEADER_SIZE
+        } else {
+            self.runtime.send_quota != 0 && self.data.outbound.can_retain()
+        }
+    }
+fn is_publish_quiescent(&self) -> (r: bool)
+    ensures
+        r == (self.data.outbound.pending_control@.len() == 0 && self.data.outbound.retained@.len() == 0 && self.data.outbound.pending_release@.len() == 0),
+{
+        self.data.outbound.is_quiescent()
+    }
+fn status(&self, op: &Op) -> (r: OpStatus)
+    ensures
+        r == status_spec(*self, *op),
+{
+        if op.generation != self.data.generation() {
+            return OpStatus::Invalidated;
+        }
+
+        let pending = match op.kind {
+            OpKind::PublishAtLeastOnce | OpKind::Subscribe | OpKind::Unsubscribe => {
+                self.data.outbound.has_retained(op.packet_id)
+            }
+            OpKind::PublishExactlyOnce => {
+                self.data.outbound.has_retained(op.packet_id)
+                    || self.data.outbound.has_pending_release(op.packet_id)
+            }
+        };
+
+        if pending {
+            OpStatus::Pending
+        } else {
+            OpStatus::Complete
+        }
+    }
+fn is_pending(&self, op: &Op) -> (r: bool)
+    ensures
+        r == (status_spec(*self, *op) == OpStatus::Pending),
+{
+        self.status(op) == OpStatus::Pending
+    }
+fn is_complete(&self, op: &Op) -> (r: bool)
+    ensures
+        r == (status_spec(*self, *op) == OpStatus::Complete),
+{
+        self.status(op) == OpStatus::Complete
+    }
+fn is_invalidated(&self, op: &Op) -> (r: bool)
+    ensures
+        r == (status_spec(*self, *op) == OpStatus::Invalidated),
+{
+        self.status(op) == OpStatus::Invalidated
     }
 }
 
